@@ -331,6 +331,19 @@ func checkC04(c *hx.Checker) {
 	if discTrans < gemmCases/4 || discAB < gemmCases/4 {
 		hx.HarnessError("Gemm fills are not discriminating (trans %d, alpha/beta %d of %d)", discTrans, discAB, gemmCases)
 	}
+	// ---------------- Scaler with large offsets / scales: (x - offset) * scale must neither overflow nor lose the
+	// difference when x is close to a large offset
+	for si, sc := range []struct{ off, scale, x []float32 }{
+		{[]float32{1e30, -1e30, 1e30}, []float32{1e10, 1e10, 1e-10}, []float32{1e30, -1e30, 3e30}},
+		{[]float32{16777216, 1e7, -1e7}, []float32{1, 0.5, 2}, []float32{16777218, 1e7 + 1, -1e7 + 3}},
+		{[]float32{3e38, 3e38, -3e38}, []float32{2, 1e-30, 0.5}, []float32{3e38, 2.9e38, -3e38}},
+		{[]float32{1, 1, 1}, []float32{3e38, -3e38, 1e38}, []float32{1, 1.0000001, 2}},
+	} {
+		x := ref.FromF(ref.F32, []int{2, 3}, float64(sc.x[0]), float64(sc.x[1]), float64(sc.x[2]), float64(sc.x[2]), float64(sc.x[0]), float64(sc.x[1]))
+		x.V[3], x.V[4], x.V[5] = x.V[0], x.V[1], x.V[2]
+		exp, err := ref.Scaler(x, sc.off, sc.scale)
+		jobs = append(jobs, newJob("Scaler", []hx.Attr{hx.AFloats("offset", sc.off...), hx.AFloats("scale", sc.scale...)}, []*ref.T{x}, []*ref.T{exp}, err, hx.DCompute, hx.Ulp(2), "op", nil, fmt.Sprintf("extreme-%d", si), "extreme-scale", "xrank=2"))
+	}
 	// ---------------- LinearRegressor
 	for _, tfb := range seqs([]int64{1, 2, 3}, 3, 3) {
 		T, F, Nb := int(tfb[0]), int(tfb[1]), int(tfb[2])
